@@ -21,7 +21,7 @@ def main(argv):
     parser.add_argument('--deadline', type=float,
                         default=float(os.environ.get('VERIF_DEADLINE_S') or 0))
     parser.add_argument('--no-evidence', action='store_true')
-    parser.add_argument('--prelude', type=int, default=None)
+    parser.add_argument('--prelude', default=None)
     parser.add_argument('--json', action='store_true')
     args = parser.parse_args(argv)
     try:
@@ -39,14 +39,18 @@ def main(argv):
             selftest()
         prelude = args.prelude
         if prelude is None:
-            prelude = int(blob.get('prelude_decoys') or 0)
-        decoy = getattr(module, 'decoy', None)
-        for _ in range(prelude if decoy else 0):
-            try:
-                decoy()
-            except Exception:  # pylint: disable=broad-except
-                pass
-        res = module.run_case(case)
+            prelude = blob.get('prelude_decoys') or 0
+        if prelude == 'trail':
+            res = engine.replay_trail(module, blob['trail'],
+                                      blob.get('tier') or args.tier)
+        else:
+            decoy = getattr(module, 'decoy', None)
+            for _ in range(int(prelude) if decoy else 0):
+                try:
+                    decoy()
+                except Exception:  # pylint: disable=broad-except
+                    pass
+            res = module.run_case(case)
         if args.json:
             print('REPLAY-RESULT ' + json.dumps([s_ for s_, _ in res.viol]))
             return 1 if res.viol else 0
